@@ -47,6 +47,7 @@ type SpecCtx struct {
 	inTrig bool
 	globalClause bool
 	inOld  int
+	callArgs map[string]SV // inside a callsite clause: the callee's parameters, written arg.<name>
 	bound  map[string]bool // names bound by quantifiers / predicate parameters (never looked up as program variables)
 }
 
@@ -201,6 +202,13 @@ func (c *SpecCtx) eval(n *Node) SV {
 	case "binop":
 		return c.binop(n)
 	case "field":
+		if c.callArgs != nil && len(n.Args) == 1 && n.Args[0].Kind == "ident" && n.Args[0].Name == "arg" {
+			v, ok := c.callArgs[n.Name]
+			if !ok {
+				fail("spec: callsite clause mentions arg.%s, which is not a parameter of the callee", n.Name)
+			}
+			return v
+		}
 		if v, ok := c.qualifiedGlobal(n); ok {
 			return v
 		}
